@@ -219,6 +219,16 @@ UC11Sel(u) == {[inp |-> <<[ts |-> SubSeq(TimePool, 1, 9), ls |-> L6, ss |-> Sa, 
              clim |-> NoClimGen, opt |-> o] : o \in {WithOpt(NoOptions, "d", {20120101, 20120201, 20120229, 20120301}), WithOpt(NoOptions, "tod", {0}),
                                                       WithOpt(NoOptions, "tod", {6, 18, 23}), WithOpt(NoOptions, "d", {20111231, 20121231, 20110301}),
                                                       WithOpt(WithOpt(NoOptions, "d", {20120101, 20120102, 20120201}), "tod", {0})}}
+\* two files whose lists of initialisation times differ: the second one starts a run earlier / lists its runs in another order / has a run
+\* the first one lacks in the middle, so that a common run sits at different positions in the two files (after seed C11-i)
+UC11Two(u) == {[inp |-> <<[ts |-> a, ls |-> L6, ss |-> Sa, hasObs |-> TRUE, mo |-> {<<1, 2, 1>>}, mf |-> {<<2, 3, 2>>}, bump |-> 0],
+                          [ts |-> b, ls |-> L6, ss |-> Sa, hasObs |-> ho, mo |-> {}, mf |-> {<<1, 1, 1>>}, bump |-> 0]>>,
+                clim |-> NoClimGen, opt |-> NoOptions]
+               : a \in {<<TimePool[1], TimePool[3], TimePool[4], TimePool[6], TimePool[7]>>},
+                 b \in {<<TimePool[5], TimePool[1], TimePool[3], TimePool[4], TimePool[6], TimePool[7]>>,
+                        <<TimePool[7], TimePool[6], TimePool[4], TimePool[3], TimePool[1]>>,
+                        <<TimePool[1], TimePool[2], TimePool[3], TimePool[4], TimePool[7], TimePool[9]>>},
+                 ho \in BOOLEAN}
 L8 == L6 \o <<LeadPool[7], LeadPool[8]>>
 UC11All(u) == {[inp |-> <<[ts |-> SubSeq(TimePool, 1, 9) \o <<TimePool[12]>>, ls |-> L8, ss |-> Sa, hasObs |-> TRUE, mo |-> {<<1, 2, 1>>}, mf |-> {<<2, 3, 2>>}, bump |-> 0]>>,
              clim |-> NoClimGen, opt |-> NoOptions]}
@@ -371,13 +381,14 @@ Universe(u) ==
     [] Family = "C11"       -> UC11(0)
     [] Family = "C11All"    -> UC11All(0)
     [] Family = "C11Sel"    -> UC11Sel(0)
+    [] Family = "C11Two"    -> UC11Two(0)
     [] Family = "C14"       -> UC14(0)
     [] Family = "C14Two"    -> UC14Two(0)
     [] Family = "C14Range"  -> UC14Range(0)
 
 ---------------------------------------------------------------------------
 (* request menu: every field combination, input, and every slice of the listed axes *)
-FamKind == CASE Family \in {"C11", "C11All", "C11Sel"} -> "calendar"
+FamKind == CASE Family \in {"C11", "C11All", "C11Sel", "C11Two"} -> "calendar"
              [] Family \in {"C01Extra", "C18Extra", "C18Ens"} -> "extra"
              [] Family \in {"C03K1", "C03K2", "C03K3", "C03ClimK1", "C03ClimK2"} -> "options"
              [] OTHER -> "plain"
